@@ -290,7 +290,7 @@ class TriangularOverlappingFilterBank(LinearFilterBank):
         if high_hz is None:
             high_hz = nyquist
         # allow 1Hz-leeway for floating point / serialization errors
-        if not (0 <= low_hz < high_hz <= nyquist + 1):
+        if not (0 <= low_hz < min(high_hz, nyquist) and high_hz <= nyquist + 1):
             raise ValueError(
                 "Invalid frequency range: ({:.2f},{:.2f}".format(low_hz, high_hz)
             )
